@@ -5,6 +5,7 @@
 (*   [t |-> "comp", c |-> component, omitId |-> BOOLEAN, pad |-> BOOLEAN,   *)
 (*    note |-> comment text or ""]                                          *)
 (*   [t |-> "blank"] | [t |-> "remark"] | [t |-> "header"]                  *)
+(*   [t |-> "meta", c |-> <<key, value>>]                                   *)
 (* plus the file flag bom.  Lines that are not components are skipped by   *)
 (* the parser; a component line may omit a system id 0 (kinds CONSUMO,     *)
 (* PRODUCCION, AUX), may be padded with white space and may end with a     *)
@@ -21,7 +22,12 @@ CompLine(c) == [t |-> "comp", c |-> c, omitId |-> FALSE, pad |-> FALSE, note |->
 Blank == [t |-> "blank", c |-> <<>>, omitId |-> FALSE, pad |-> FALSE, note |-> ""]
 Remark == [t |-> "remark", c |-> <<>>, omitId |-> FALSE, pad |-> FALSE, note |-> "a remark"]
 Header == [t |-> "header", c |-> <<>>, omitId |-> FALSE, pad |-> FALSE, note |-> ""]
+\* a metadata line "#META key: value" (c holds the pair); the parser reads it wherever it is in the file
+MetaLine(k, v) == [t |-> "meta", c |-> <<k, v>>, omitId |-> FALSE, pad |-> FALSE, note |-> ""]
 FileOf(C) == [bom |-> FALSE, lines |-> [i \in 1..Len(C) |-> CompLine(C[i])]]
+WithMeta(f, ms) == [f EXCEPT !.lines = ms \o @]
+\* what the file declares as metadata: its key / value pairs
+MetaOf(f) == {f.lines[i].c : i \in {i \in 1..Len(f.lines) : f.lines[i].t = "meta"}}
 
 CompsOf(f) == LET idx == {i \in 1..Len(f.lines) : f.lines[i].t = "comp"}
               IN [k \in 1..Cardinality(idx) |->
@@ -58,6 +64,7 @@ CanOmitId(ln) == ln.t = "comp" /\ ln.c.kind \in {"USED", "PROD", "AUX"} /\ ln.c.
 ToggleId0(f, i) == [f EXCEPT !.lines[i].omitId = ~f.lines[i].omitId]
 
 IsCompLine(f, i) == f.lines[i].t = "comp"
+CanPad(f, i) == f.lines[i].t \in {"comp", "meta"}
 
 (***************************************************************************)
 (* Print / Parse of one component line as a sequence of fields (Display    *)
